@@ -15,6 +15,15 @@ impl<T> ArcIntern<T> {
     #[verifier::external_body]
     pub fn new(x: T) -> (r: Self) ensures *r.inner == x { unimplemented!() }
 }
+pub open spec fn arc<T>(x: T) -> ArcIntern<T> { ArcIntern { inner: Box::new(x) } }
+impl<T> vstd::std_specs::convert::FromSpecImpl<T> for ArcIntern<T> {
+    open spec fn obeys_from_spec() -> bool { true }
+    open spec fn from_spec(v: T) -> Self { arc(v) }
+}
+impl<T> From<T> for ArcIntern<T> {
+    #[verifier::external_body]
+    fn from(v: T) -> Self { unimplemented!() }
+}
 impl<T> AsRef<T> for ArcIntern<T> {
     fn as_ref(&self) -> (r: &T) ensures *r == *self.inner { &*self.inner }
 }
@@ -35,6 +44,55 @@ impl<T: Debug> Debug for ArcIntern<T> {
 // num_complex::Complex64: a pair of f64.  Floating point values are opaque: arithmetic on them is uninterpreted.
 #[derive(Clone, Copy, Debug, PartialEq)]
 pub struct Complex64 { pub re: f64, pub im: f64 }
+pub mod num_complex { pub use super::Complex64; }
+pub uninterp spec fn c_neg(z: Complex64) -> Complex64;
+pub uninterp spec fn c_add(a: Complex64, b: Complex64) -> Complex64;
+pub uninterp spec fn c_sub(a: Complex64, b: Complex64) -> Complex64;
+pub uninterp spec fn c_mul(a: Complex64, b: Complex64) -> Complex64;
+pub uninterp spec fn c_div(a: Complex64, b: Complex64) -> Complex64;
+pub uninterp spec fn c_powc(a: Complex64, b: Complex64) -> Complex64;
+pub uninterp spec fn c_sin(a: Complex64) -> Complex64;
+pub uninterp spec fn c_cos(a: Complex64) -> Complex64;
+pub uninterp spec fn c_exp(a: Complex64) -> Complex64;
+pub uninterp spec fn c_sqrt(a: Complex64) -> Complex64;
+impl Complex64 {
+    pub fn new(re: f64, im: f64) -> (r: Self) ensures r == (Complex64 { re, im }) { Complex64 { re, im } }
+    #[verifier::external_body] pub fn powc(self, e: Complex64) -> (r: Complex64) ensures r == c_powc(self, e) { unimplemented!() }
+    #[verifier::external_body] pub fn sin(self) -> (r: Complex64) ensures r == c_sin(self) { unimplemented!() }
+    #[verifier::external_body] pub fn cos(self) -> (r: Complex64) ensures r == c_cos(self) { unimplemented!() }
+    #[verifier::external_body] pub fn exp(self) -> (r: Complex64) ensures r == c_exp(self) { unimplemented!() }
+    #[verifier::external_body] pub fn sqrt(self) -> (r: Complex64) ensures r == c_sqrt(self) { unimplemented!() }
+}
+impl vstd::std_specs::ops::NegSpecImpl for Complex64 {
+    open spec fn obeys_neg_spec() -> bool { true }
+    open spec fn neg_req(self) -> bool { true }
+    open spec fn neg_spec(self) -> Complex64 { c_neg(self) }
+}
+impl std::ops::Neg for Complex64 { type Output = Complex64; #[verifier::external_body] fn neg(self) -> Complex64 { unimplemented!() } }
+impl vstd::std_specs::ops::AddSpecImpl<Complex64> for Complex64 {
+    open spec fn obeys_add_spec() -> bool { true }
+    open spec fn add_req(self, rhs: Complex64) -> bool { true }
+    open spec fn add_spec(self, rhs: Complex64) -> Complex64 { c_add(self, rhs) }
+}
+impl std::ops::Add for Complex64 { type Output = Complex64; #[verifier::external_body] fn add(self, rhs: Complex64) -> Complex64 { unimplemented!() } }
+impl vstd::std_specs::ops::SubSpecImpl<Complex64> for Complex64 {
+    open spec fn obeys_sub_spec() -> bool { true }
+    open spec fn sub_req(self, rhs: Complex64) -> bool { true }
+    open spec fn sub_spec(self, rhs: Complex64) -> Complex64 { c_sub(self, rhs) }
+}
+impl std::ops::Sub for Complex64 { type Output = Complex64; #[verifier::external_body] fn sub(self, rhs: Complex64) -> Complex64 { unimplemented!() } }
+impl vstd::std_specs::ops::MulSpecImpl<Complex64> for Complex64 {
+    open spec fn obeys_mul_spec() -> bool { true }
+    open spec fn mul_req(self, rhs: Complex64) -> bool { true }
+    open spec fn mul_spec(self, rhs: Complex64) -> Complex64 { c_mul(self, rhs) }
+}
+impl std::ops::Mul for Complex64 { type Output = Complex64; #[verifier::external_body] fn mul(self, rhs: Complex64) -> Complex64 { unimplemented!() } }
+impl vstd::std_specs::ops::DivSpecImpl<Complex64> for Complex64 {
+    open spec fn obeys_div_spec() -> bool { true }
+    open spec fn div_req(self, rhs: Complex64) -> bool { true }
+    open spec fn div_spec(self, rhs: Complex64) -> Complex64 { c_div(self, rhs) }
+}
+impl std::ops::Div for Complex64 { type Output = Complex64; #[verifier::external_body] fn div(self, rhs: Complex64) -> Complex64 { unimplemented!() } }
 
 // indexmap::IndexMap<String, V>: insertion-ordered map.  View: the sequence of (key, value) pairs in order,
 // keys pairwise distinct.  `get` looks the key up.
